@@ -21,8 +21,9 @@ Store(parts, i) == IF i \in Stored(parts) THEN parts ELSE parts \cup {[img |-> i
 Use(s, i) == [s EXCEPT !.parts = Store(@, i), !.used = @ \cup {i}]
 Act(op, slide, img, args, via) == [op |-> op, slide |-> slide, img |-> img, args |-> args, via |-> via, cx |-> 1234567, cy |-> 765432]
 Init == st = [parts |-> (IF LOGO > 0 THEN {[img |-> LOGO, num |-> 1]} ELSE {}) \cup {[img |-> i, num |-> i] : i \in 1..NPRE}, used |-> 1..NPRE, logoLay |-> LOGO > 0,
-              npics |-> 0, last |-> "open", reopened |-> FALSE] /\ hist = <<>>
-Step(a, t) == Len(hist) < DEPTH /\ a.op \in OPS /\ st' = [t EXCEPT !.last = a.op] /\ hist' = Append(hist, a)
+              npics |-> 0, last |-> "open", li |-> 0, reopened |-> FALSE] /\ hist = <<>>
+\* (li: the image the last action named - adding an image that is already stored is a step of its own, whichever image it is)
+Step(a, t) == Len(hist) < DEPTH /\ a.op \in OPS /\ st' = [t EXCEPT !.last = a.op, !.li = a.img] /\ hist' = Append(hist, a)
 AddPicture == \E k \in 1..NSLIDES, i \in 1..NIMG, g \in ARGS, v \in VIAS :
                  (g = "none" \/ v = "stream") /\
                  Step(Act("addPicture", k, i, g, v), [Use(st, i) EXCEPT !.npics = @ + 1])
